@@ -195,11 +195,23 @@ pub fn exec_seq(case: &Case) -> Verdict {
         };
         let ecfg = engine_cfg(&case, &path);
         let out = Engine::new(ecfg, src, &arena).run();
+        if std::env::var("JSIM_DEBUG").is_ok() {
+            eprintln!("api-trace={:016x} log-hash={:016x} calls={} getrandom={}", out.trace, simos::log_hash(), simos::total_calls(), simos::getrandom_calls());
+            if std::env::var("JSIM_DEBUG").unwrap() == "log" {
+                for e in simos::log_slice(0) {
+                    match e {
+                        simos::Ev::Write { off, data, .. } => eprintln!("W {} {} {:?}", off, data.len(), &data[..data.len().min(32)]),
+                        other => eprintln!("{:?}", other),
+                    }
+                }
+            }
+        }
         let mut v = Verdict {
             violation: out.violation,
             aborted: out.aborted,
             skipped: out.skipped,
-            trace: out.trace,
+            // every API outcome and every SimOS event including the bytes written
+            trace: crate::rng::mix(out.trace, simos::log_hash()),
             issued: out.issued,
             stats: out.stats,
             sim_events: simos::total_calls(),
